@@ -39,7 +39,7 @@ def tree_views(root):
     errs = []
     crash = None
     try:
-        validate.tree(root, errs)
+        impl.limited(validate.tree, root, errs)
     except BaseException as ex:
         if isinstance(ex, (KeyboardInterrupt, SystemExit)):
             raise
@@ -56,7 +56,7 @@ def node_views(root):
         errs = []
         crash = None
         try:
-            validate.node(n, errs)
+            impl.limited(validate.node, n, errs)
         except BaseException as ex:
             if isinstance(ex, (KeyboardInterrupt, SystemExit)):
                 raise
